@@ -15,6 +15,9 @@ const PG_TYPES: [Type; 18] = [
     Type::TEXT, Type::VARCHAR, Type::JSON, Type::JSONB, Type::BIT, Type::VARBIT, Type::TIMESTAMP,
 ];
 
+/// (array type, index of its element type in PG_TYPES)
+const PG_ARRAY_TYPES: [(Type, usize); 6] = [(Type::INT8_ARRAY, 4), (Type::NUMERIC_ARRAY, 9), (Type::BYTEA_ARRAY, 10), (Type::TEXT_ARRAY, 11), (Type::BIT_ARRAY, 15), (Type::VARBIT_ARRAY, 16)];
+
 /// `io::Read` / `io::Write` whose answers the harness decides (the environment of the stream codecs):
 /// mode 0 = every call transfers at most `k` bytes; mode 1 = the first call transfers at most `k` bytes, later
 /// calls as much as asked; mode 2 = at most 3 bytes per call and call number `k` fails once with
@@ -114,6 +117,10 @@ define_ops! {
     biguint_from = |a: U| (BigUint::from(a).to_bytes_le(), BigUint::from(&a).to_bytes_le());
     bigint_from = |a: U| { let x = BigInt::from(a); (x.sign() != Sign::Minus, x.to_bytes_le().1, BigInt::from(&a).to_bytes_le().1) };
     pg_to_sql = |a: U, t: N| { let mut out = bytes::BytesMut::new(); match postgres_types::ToSql::to_sql(&a, &PG_TYPES[t], &mut out) { Ok(_) => V::some(V::Bytes(out.to_vec())), Err(_) => V::None } };
+    // two values written one after the other into a buffer that already holds data (postgres writes every column / array
+    // element into the same BytesMut), and a Vec<Uint> as a postgres array
+    pg_to_sql_seq = |a: U, b: U, t: N| { let mut out = bytes::BytesMut::new(); out.extend_from_slice(&[0xEE, 0xDD, 0xCC]); let r1 = postgres_types::ToSql::to_sql(&a, &PG_TYPES[t], &mut out).is_ok(); let l1 = out.len(); let r2 = postgres_types::ToSql::to_sql(&b, &PG_TYPES[t], &mut out).is_ok(); (r1, l1, r2, out.to_vec()) };
+    pg_array = |a: U, b: U, t: N| { let mut out = bytes::BytesMut::new(); out.extend_from_slice(&[0xEE]); let v = vec![a, b]; let r = postgres_types::ToSql::to_sql(&v, &PG_ARRAY_TYPES[t].0, &mut out).is_ok(); let back = if r { <Vec<Uint<B, L>> as postgres_types::FromSql>::from_sql(&PG_ARRAY_TYPES[t].0, &out[1..]).ok().map(lst) } else { None }; (r, out.to_vec(), back) };
     pg_accepts = |t: N| (<Uint<B, L> as postgres_types::ToSql>::accepts(&PG_TYPES[t]), <Uint<B, L> as postgres_types::FromSql>::accepts(&PG_TYPES[t]));
     // two values written back to back into ONE pre-filled buffer through the streaming APIs (multi-step sequence)
     seq_alloy = |a: U, b: U| { let mut o = vec![0xEEu8]; alloy_rlp::Encodable::encode(&a, &mut o); alloy_rlp::Encodable::encode(&b, &mut o); o };
@@ -698,6 +705,47 @@ fn model(bits: usize, op: Op, args: &[V]) -> Expect {
                 Err(()) => pred("Some(_) (float column: bytes not compared), no panic", |g| matches!(g, V::Some(_))),
             }
         }
+        pg_to_sql_seq => {
+            let t = args[2].as_n() as usize;
+            let (x, y) = (a(), big(args[1].limbs()));
+            match (pg_encode(t, &x, bits), pg_encode(t, &y, bits)) {
+                (Ok(Some(e1)), Ok(Some(e2))) => {
+                    let mut o = vec![0xEEu8, 0xDD, 0xCC];
+                    o.extend(&e1);
+                    let l1 = o.len();
+                    o.extend(&e2);
+                    is(V::T(vec![V::B(true), V::n(l1), V::B(true), by(o)])).nt(true)
+                }
+                (Ok(e1), Ok(e2)) => {
+                    let (w1, w2) = (e1.is_some(), e2.is_some());
+                    pred("the two results succeed exactly when the single encodings do; the 3 bytes already in the buffer are untouched", move |g| matches!(g, V::T(t) if t.len() == 4 && t[0] == V::B(w1) && (!w1 || t[2] == V::B(w2)) && matches!(&t[3], V::Bytes(b) if b.starts_with(&[0xEE, 0xDD, 0xCC])))).nt(true)
+                }
+                _ => pred("no panic (float column: bytes not compared)", |g| *g != V::Panic),
+            }
+        }
+        pg_array => {
+            let t = args[2].as_n() as usize;
+            let (x, y) = (a(), big(args[1].limbs()));
+            let (aty, et) = (&PG_ARRAY_TYPES[t].0, PG_ARRAY_TYPES[t].1);
+            let oid = match aty.kind() { postgres_types::Kind::Array(e) => e.oid(), _ => 0 };
+            match (pg_encode(et, &x, bits), pg_encode(et, &y, bits)) {
+                (Ok(Some(e1)), Ok(Some(e2))) => {
+                    // one-dimensional array: ndim, has-null flag, element oid, length, lower bound, then length-prefixed elements
+                    let mut o = vec![0xEEu8];
+                    for w in [1i32, 0, oid as i32, 2, 1] {
+                        o.extend(w.to_be_bytes());
+                    }
+                    for e in [&e1, &e2] {
+                        o.extend((e.len() as i32).to_be_bytes());
+                        o.extend(e.iter());
+                    }
+                    let lv = V::L(vec![u(&x, bits), u(&y, bits)]);
+                    is(V::T(vec![V::B(true), by(o), V::some(lv)])).nt(true)
+                }
+                (Ok(_), Ok(_)) => pred("the array is refused (an element does not fit the column type); no panic", |g| matches!(g, V::T(t) if t.len() == 3 && t[0] == V::B(false))).nt(true),
+                _ => pred("no panic", |g| *g != V::Panic),
+            }
+        }
         pg_accepts => {
             let t = args[0].as_n() as usize;
             let yes = t < 17;
@@ -1047,6 +1095,15 @@ fn c16(r: &Runner) {
             }
             for t in 0..PG_TYPES.len() {
                 exec(l, bits, Op::pg_to_sql, &[a.clone(), V::n(t)]);
+            }
+            {
+                let bw = vu(&vals[(i + 1) % vals.len()]);
+                for t in 0..PG_TYPES.len() {
+                    exec(l, bits, Op::pg_to_sql_seq, &[a.clone(), bw.clone(), V::n(t)]);
+                }
+                for t in 0..PG_ARRAY_TYPES.len() {
+                    exec(l, bits, Op::pg_array, &[a.clone(), bw.clone(), V::n(t)]);
+                }
             }
             roundtrips(l, bits, &v);
             // two values back to back: this value and its successor in the universe
